@@ -410,14 +410,43 @@ theorem writeSingleSegment_eq (cx : Ctx) (seg : Segment) (segs' : List Segment) 
   simp only [emitSection_eq cx seg segs' fs' hf]
   rfl
 
-theorem addSegment_eq (cx : Ctx) (seg seg' : Segment) (segs' : List Segment) (h : SegEq seg seg') (em : List Str) :
+theorem any_forall₂ {α} (R : α → α → Prop) (p : α → Bool) (hp : ∀ a b, R a b → p a = p b) :
+    ∀ (l l' : List α), List.Forall₂ R l l' → l.any p = l'.any p := by
+  intro l l' h
+  induction h with
+  | nil => rfl
+  | cons hab _ ih => simp only [List.any_cons, hp _ _ hab, ih]
+
+/-- which followed classes are in use only reads the class and the conditions of the segments. -/
+theorem followedUsed_eq (cx : Ctx) (segs' : List Segment) (hs : List.Forall₂ SegEq cx.d.segments segs') (vc : VramClass) :
+    followedUsed { cx with d := { cx.d with segments := segs' } } vc = followedUsed cx vc := by
+  unfold followedUsed
+  apply List.filter_congr
+  intro other _
+  symm
+  apply any_forall₂ SegEq _ _ _ _ hs
+  rintro a b ⟨fs', _, rfl⟩
+  rfl
+
+theorem classPart_eq (cx : Ctx) (segs' : List Segment) (hs : List.Forall₂ SegEq cx.d.segments segs') (em : List Str) (seg : Segment) :
+    classPart { cx with d := { cx.d with segments := segs' } } em seg = classPart cx em seg := by
+  unfold classPart classIntro
+  simp only [followedUsed_eq cx segs' hs]
+  rfl
+
+theorem addSegment_eq (cx : Ctx) (seg seg' : Segment) (segs' : List Segment) (hs : List.Forall₂ SegEq cx.d.segments segs')
+    (h : SegEq seg seg') (em : List Str) :
     addSegment { cx with d := { cx.d with segments := segs' } } em seg' = addSegment cx em seg := by
   obtain ⟨fs', hf, rfl⟩ := h
   unfold addSegment
   simp only [writeSegment_eq cx seg segs' fs' hf]
+  have hc : classPart { cx with d := { cx.d with segments := segs' } } em { seg with files := fs' } = classPart cx em seg := by
+    rw [classPart_eq cx segs' hs]
+    rfl
+  simp only [hc]
   rfl
 
-theorem addSegments_eq (cx : Ctx) (segs' : List Segment) :
+theorem addSegments_eq (cx : Ctx) (segs' : List Segment) (hs : List.Forall₂ SegEq cx.d.segments segs') :
     ∀ (l l' : List Segment), List.Forall₂ SegEq l l' → ∀ em,
       addSegments { cx with d := { cx.d with segments := segs' } } em l' = addSegments cx em l := by
   intro l l' h
@@ -426,7 +455,7 @@ theorem addSegments_eq (cx : Ctx) (segs' : List Segment) :
   | cons hab _ ih =>
     intro em
     unfold addSegments
-    rw [addSegment_eq cx _ _ segs' hab em]
+    rw [addSegment_eq cx _ _ segs' hs hab em]
     simp only [ih]
 
 theorem addSingleSegment_eq (cx : Ctx) (seg seg' : Segment) (segs' : List Segment) (h : SegEq seg seg') :
@@ -439,7 +468,7 @@ theorem addSingleSegment_eq (cx : Ctx) (seg seg' : Segment) (segs' : List Segmen
 theorem addAllSegments_eq (cx : Ctx) (segs segs' : List Segment) (hs : cx.d.segments = segs) (h : List.Forall₂ SegEq segs segs') :
     addAllSegments { cx with d := { cx.d with segments := segs' } } = addAllSegments cx := by
   unfold addAllSegments
-  simp only [hs, addSegments_eq cx segs' _ _ h]
+  simp only [hs, addSegments_eq cx segs' (hs ▸ h) _ _ h]
   cases h with
   | nil => rfl
   | cons hab hrest =>
@@ -456,7 +485,7 @@ theorem generateNormal_eq (d d' : Document) (h : DocEq d d') (o : Opts) (vc : Bo
   rw [this]
   rfl
 
-theorem partialSegments_eq (d : Document) (segs' : List Segment) (o : Opts) (vc : Bool) (folder : Str) :
+theorem partialSegments_eq (d : Document) (segs' : List Segment) (hd : List.Forall₂ SegEq d.segments segs') (o : Opts) (vc : Bool) (folder : Str) :
     ∀ (l l' : List Segment), List.Forall₂ SegEq l l' → ∀ em,
       partialSegments { d with segments := segs' } o vc folder escapePath em l'
         = partialSegments d o vc folder escapePath em l := by
@@ -473,7 +502,7 @@ theorem partialSegments_eq (d : Document) (segs' : List Segment) (o : Opts) (vc 
         (partialSegment folder { a with files := fs' })
         = addSegment { d := d, o := o, refPartial := true, esc := escapePath } em (partialSegment folder a) := by
       intro em
-      exact addSegment_eq { d := d, o := o, refPartial := true, esc := escapePath } (partialSegment folder a) _ segs' ⟨_, by
+      exact addSegment_eq { d := d, o := o, refPartial := true, esc := escapePath } (partialSegment folder a) _ segs' hd ⟨_, by
         unfold partialSegment; simp only []; exact ⟨by unfold FileInfo.newObject FEq; exact ⟨rfl, rfl, rfl, rfl, rfl, rfl, List.Perm.refl _, trivial, rfl, rfl, rfl⟩, trivial⟩, rfl⟩ em
     simp only [h1, h2, ih]
 
@@ -481,7 +510,7 @@ theorem generatePartial_eq (d d' : Document) (h : DocEq d d') (o : Opts) (vc : B
     generatePartial d' o vc = generatePartial d o vc := by
   obtain ⟨segs', hf, rfl⟩ := h
   unfold generatePartial
-  simp only [partialSegments_eq d segs' o vc _ _ _ hf]
+  simp only [partialSegments_eq d segs' hf o vc _ _ _ hf]
   rfl
 
 /-- **C15 for whole documents**: two parsed documents that differ only in the order in which
